@@ -19,6 +19,9 @@ def gen_hists(seed, tier):
     return hists
 
 
+BASE = {}
+
+
 def oracle(hist, res):
     sets = ["spc", "spc", "spc"]
     for i, (st, r) in enumerate(zip(hist, res)):
@@ -38,6 +41,14 @@ def oracle(hist, res):
             return "attach %d: device type %#x selected %s, expected %s" % (i, t, got, SPEC[t])
         if got not in ("spc", "sbc", "ssc", "smc", "mmc"):
             return "attach %d: device type %#x left an unknown command set" % (i, t)
+        # no leak: what a re-attached facade selects equals what a brand-new facade selects for the same type on a device
+        # in the same state (the baseline is filled from the attaches made with a new facade)
+        key = (t, sets[st["dev"]])
+        if st["new_facade"]:
+            BASE.setdefault(key, got)
+        elif key in BASE and BASE[key] != got:
+            return "attach %d: device type %#x got %s from a re-used facade, %s from a new facade (the previous device's command set leaked)" % (
+                i, t, got, BASE[key])
         sets = list(r["sets"])
     return None
 
@@ -49,7 +60,11 @@ def run_impl(hists):
 def replay(obj):
     if obj.get("kind") != "c16-history":
         return False, "replay names a broken obligation, not an input: %s" % obj.get("what")
-    r = run_impl([obj["history"]])[0]
+    fresh = [[dict(dev=0, b0=b, new_facade=True)] for b in range(256)]
+    rs = run_impl(fresh + [obj["history"]])
+    for h, r0 in zip(fresh, rs):
+        oracle(h, r0)
+    r = rs[-1]
     why = oracle(obj["history"], r)
     return why is None, ("on the implementation: %s" % (why or "every attach selected the set of the reported type"))
 
